@@ -224,146 +224,147 @@ Section Mech.
          | None => flag x "b"
          end.
 
-  Fixpoint exec (fuel : nat) (ss : list stmt) (env : lenv) (x : xst) {struct fuel} : res :=
+  (* one structural fixpoint over the fuel; the four mutually recursive evaluators are its four tasks *)
+  Inductive task :=
+  | TkExec (ss : list stmt) (env : lenv)          (* a statement list *)
+  | TkExec1 (s : stmt) (env : lenv)               (* one statement *)
+  | TkCall (env : lenv) (w : value)               (* call_value *)
+  | TkTops (ts : list top) (src : nat).           (* the top level of module source `src` *)
+
+  Fixpoint run_task (fuel : nat) (tk : task) (x : xst) {struct fuel} : res :=
     match fuel with
     | O => RFuel
     | S fuel' =>
-      match ss with
-      | [] => RNormal env x
-      | s :: rest =>
-        match exec1 fuel' s env x with
-        | RNormal env' x' => exec fuel' rest env' x'
-        | r => r
-        end
-      end
-    end
-  with exec1 (fuel : nat) (s : stmt) (env : lenv) (x : xst) {struct fuel} : res :=
-    match fuel with
-    | O => RFuel
-    | S fuel' =>
-      match s with
-      | SPrintTag t =>
-        get_global x "print" (fun x1 _ => RNormal env (emit x1 (tag_text t)))
-      | SPrintVar v =>
-        get_global x "print" (fun x1 _ =>
-        get_global x1 (var_name v) (fun x2 w => RNormal env (emit x2 (display_m (ms x2) w))))
-      | SSet v n =>
-        bind_s (do_step x (ESetGlobal (var_name v) (VNum n))) (fun x1 _ => RNormal env x1)
-      | SImport p a =>
-        let nm := import_alias p a in
-        bind_s (do_step x (EStartImport (mod_path (N.to_nat p)))) (fun x1 o =>
-          match o with
-          | OModule id =>
-            bind_s (do_step x1 EFinishImport) (fun x2 _ => bind_alias env x2 nm (VMod id))
-          | OEntered id body =>
-            match exec_tops fuel' body (src_of_mod x1 id) x1 with
-            | RNormal _ x2 =>
-              bind_s (do_step x2 EReturn) (fun x3 _ =>
-              bind_s (do_step x3 EFinishImport) (fun x4 _ => bind_alias env x4 nm (VMod id)))
-            | r => r
-            end
-          | _ => RIll "import"
-          end)
-      | SPrintAttr a v =>
-        get_global x "print" (fun x1 _ =>
-        resolve env x1 (alias_name a) (fun x2 w =>
-          match w with
-          | VMod id => bind_s (do_step x2 (EGetAttr id (var_name v))) (fun x3 o =>
-                         match o with OValue u => RNormal env (emit x3 (display_m (ms x3) u)) | _ => RIll "getattr" end)
-          | _ => RIll "not a module"
-          end))
-      | SSetAttr a v n =>
-        resolve env x (alias_name a) (fun x1 w =>
-          match w with
-          | VMod id => bind_s (do_step x1 (ESetAttr id (var_name v) (VNum n))) (fun x2 _ => RNormal env x2)
-          | _ => RIll "not a module"
-          end)
-      | SCall f =>
-        get_global x (fn_name f) (fun x1 w => call_value fuel' env x1 w)
-      | SCallAttr a f =>
-        resolve env x (alias_name a) (fun x1 w =>
-          match w with
-          | VMod id => bind_s (do_step x1 (EGetAttr id (fn_name f))) (fun x2 o =>
-                         match o with OValue u => call_value fuel' env x2 u | _ => RIll "invoke" end)
-          | _ => RIll "not a module"
-          end)
-      | SThrow => bind_s (do_step x (EThrow (VStr thrown_text))) (fun _ _ => RIll "throw returned")
-      | SUseBuiltin k =>
-        get_global x "print" (fun x1 _ =>
-          match k with
-          | 0%N => get_global x1 "type" (fun x2 _ => RNormal env (emit x2 "<class Num>"))
-          | 1%N => get_global x1 "Vec" (fun x2 w => RNormal env (emit x2 (display_m (ms x2) w)))
-          | 2%N => get_global x1 "type" (fun x2 _ => get_global x2 "print" (fun x3 _ => RNormal env (emit x3 "<class BuiltIn>")))
-          | _ => let x1' := note_main_only x1 "RuntimeError" in
-                 get_global x1' "RuntimeError" (fun x2 w => RNormal env (emit x2 (display_m (ms x2) w)))
-          end)
-      | STry body =>
-        let hid := nexth x in
-        bind_s (do_step x EPushHandler) (fun x1 _ =>
-          let x1' := mkx (ms x1) (xout x1) (hid :: hids x1) (S (nexth x1)) (xflags x1) in
-          match exec fuel' body ([] :: env) x1' with
-          | RNormal _ x2 =>
-            bind_s (do_step x2 EPopHandler) (fun x3 _ =>
-              RNormal env (mkx (ms x3) (xout x3) (tl (hids x3)) (nexth x3) (xflags x3)))
-          | RUnwound h e x2 =>
-            if Nat.eqb h hid then
-              (* catch e { print(type(e)); if type(e) == String { print(e); } else { print(e.context); } } *)
-              get_global x2 "print" (fun x3 _ => get_global x3 "type" (fun x4 _ =>
-                let cls := match e with XErr er => kind_class (e_kind er) | XVal _ => "String" end in
-                let x5 := emit x4 ("<class " ++ cls ++ ">") in
-                get_global x5 "type" (fun x6 _ => get_global x6 "String" (fun x7 _ =>
-                get_global x7 "print" (fun x8 _ =>
-                  let msg := match e with XErr er => first_line (e_msgs er) | XVal v => display_m (ms x8) v end in
-                  RNormal env (emit x8 msg))))))
-            else RUnwound h e x2
+      match tk with
+      | TkExec ss env =>
+        match ss with
+        | [] => RNormal env x
+        | s :: rest =>
+          match run_task fuel' (TkExec1 s env) x with
+          | RNormal env' x' => run_task fuel' (TkExec rest env') x'
           | r => r
-          end)
-      | SBlock body =>
-        match exec fuel' body ([] :: env) x with
-        | RNormal _ x1 => RNormal env x1
-        | r => r
+          end
         end
-      end
-    end
-  with call_value (fuel : nat) (env : lenv) (x : xst) (w : value) {struct fuel} : res :=
-    match fuel with
-    | O => RFuel
-    | S fuel' =>
-      match w with
-      | VFn m key =>
-        match find_fn prog key with
-        | Some body =>
-          bind_s (do_step x (ECall m)) (fun x1 _ =>
-            match exec fuel' body [[]] x1 with
-            | RNormal _ x2 => bind_s (do_step x2 EReturn) (fun x3 _ => RNormal env x3)
+      | TkExec1 s env =>
+        match s with
+        | SPrintTag t =>
+          get_global x "print" (fun x1 _ => RNormal env (emit x1 (tag_text t)))
+        | SPrintVar v =>
+          get_global x "print" (fun x1 _ =>
+          get_global x1 (var_name v) (fun x2 w => RNormal env (emit x2 (display_m (ms x2) w))))
+        | SSet v n =>
+          bind_s (do_step x (ESetGlobal (var_name v) (VNum n))) (fun x1 _ => RNormal env x1)
+        | SImport p a =>
+          let nm := import_alias p a in
+          bind_s (do_step x (EStartImport (mod_path (N.to_nat p)))) (fun x1 o =>
+            match o with
+            | OModule id =>
+              bind_s (do_step x1 EFinishImport) (fun x2 _ => bind_alias env x2 nm (VMod id))
+            | OEntered id body =>
+              match run_task fuel' (TkTops body (src_of_mod x1 id)) x1 with
+              | RNormal _ x2 =>
+                bind_s (do_step x2 EReturn) (fun x3 _ =>
+                bind_s (do_step x3 EFinishImport) (fun x4 _ => bind_alias env x4 nm (VMod id)))
+              | r => r
+              end
+            | _ => RIll "import"
+            end)
+        | SPrintAttr a v =>
+          get_global x "print" (fun x1 _ =>
+          resolve env x1 (alias_name a) (fun x2 w =>
+            match w with
+            | VMod id => bind_s (do_step x2 (EGetAttr id (var_name v))) (fun x3 o =>
+                           match o with OValue u => RNormal env (emit x3 (display_m (ms x3) u)) | _ => RIll "getattr" end)
+            | _ => RIll "not a module"
+            end))
+        | SSetAttr a v n =>
+          resolve env x (alias_name a) (fun x1 w =>
+            match w with
+            | VMod id => bind_s (do_step x1 (ESetAttr id (var_name v) (VNum n))) (fun x2 _ => RNormal env x2)
+            | _ => RIll "not a module"
+            end)
+        | SCall f =>
+          get_global x (fn_name f) (fun x1 w => run_task fuel' (TkCall env w) x1)
+        | SCallAttr a f =>
+          resolve env x (alias_name a) (fun x1 w =>
+            match w with
+            | VMod id => bind_s (do_step x1 (EGetAttr id (fn_name f))) (fun x2 o =>
+                           match o with OValue u => run_task fuel' (TkCall env u) x2 | _ => RIll "invoke" end)
+            | _ => RIll "not a module"
+            end)
+        | SThrow => bind_s (do_step x (EThrow (VStr thrown_text))) (fun _ _ => RIll "throw returned")
+        | SUseBuiltin k =>
+          get_global x "print" (fun x1 _ =>
+            match k with
+            | 0%N => get_global x1 "type" (fun x2 _ => RNormal env (emit x2 "<class Num>"))
+            | 1%N => get_global x1 "Vec" (fun x2 w => RNormal env (emit x2 (display_m (ms x2) w)))
+            | 2%N => get_global x1 "type" (fun x2 _ => get_global x2 "print" (fun x3 _ => RNormal env (emit x3 "<class BuiltIn>")))
+            | _ => let x1' := note_main_only x1 "RuntimeError" in
+                   get_global x1' "RuntimeError" (fun x2 w => RNormal env (emit x2 (display_m (ms x2) w)))
+            end)
+        | STry body =>
+          let hid := nexth x in
+          bind_s (do_step x EPushHandler) (fun x1 _ =>
+            let x1' := mkx (ms x1) (xout x1) (hid :: hids x1) (S (nexth x1)) (xflags x1) in
+            match run_task fuel' (TkExec body ([] :: env)) x1' with
+            | RNormal _ x2 =>
+              bind_s (do_step x2 EPopHandler) (fun x3 _ =>
+                RNormal env (mkx (ms x3) (xout x3) (tl (hids x3)) (nexth x3) (xflags x3)))
+            | RUnwound h e x2 =>
+              if Nat.eqb h hid then
+                (* catch e { print(type(e)); if type(e) == String { print(e); } else { print(e.context); } } *)
+                get_global x2 "print" (fun x3 _ => get_global x3 "type" (fun x4 _ =>
+                  let cls := match e with XErr er => kind_class (e_kind er) | XVal _ => "String" end in
+                  let x5 := emit x4 ("<class " ++ cls ++ ">") in
+                  get_global x5 "type" (fun x6 _ => get_global x6 "String" (fun x7 _ =>
+                  get_global x7 "print" (fun x8 _ =>
+                    let msg := match e with XErr er => first_line (e_msgs er) | XVal v => display_m (ms x8) v end in
+                    RNormal env (emit x8 msg))))))
+              else RUnwound h e x2
             | r => r
             end)
-        | None => RIll "no such function"
+        | SBlock body =>
+          match run_task fuel' (TkExec body ([] :: env)) x with
+          | RNormal _ x1 => RNormal env x1
+          | r => r
+          end
         end
-      | _ => RIll "not a function"
-      end
-    end
-  with exec_tops (fuel : nat) (ts : list top) (src : nat) (x : xst) {struct fuel} : res :=
-    match fuel with
-    | O => RFuel
-    | S fuel' =>
-      match ts with
-      | [] => RNormal [] x
-      | t :: rest =>
-        let r :=
-          match t with
-          | TStmt s => exec1 fuel' s [] x
-          | TDef v n => bind_s (do_step x (EDefineGlobal (var_name v) (VNum n))) (fun x1 _ => RNormal [] x1)
-          | TFn f _ =>
-            (* closure_impl: the closure remembers Vm.active_module *)
-            bind_s (do_step x (EDefineGlobal (fn_name f) (VFn (active (ms x)) (fn_key src f)))) (fun x1 _ => RNormal [] x1)
-          end in
-        match r with
-        | RNormal _ x' => exec_tops fuel' rest src x'
-        | r' => r'
+      | TkCall env w =>
+        match w with
+        | VFn m key =>
+          match find_fn prog key with
+          | Some body =>
+            bind_s (do_step x (ECall m)) (fun x1 _ =>
+              match run_task fuel' (TkExec body [[]]) x1 with
+              | RNormal _ x2 => bind_s (do_step x2 EReturn) (fun x3 _ => RNormal env x3)
+              | r => r
+              end)
+          | None => RIll "no such function"
+          end
+        | _ => RIll "not a function"
+        end
+      | TkTops ts src =>
+        match ts with
+        | [] => RNormal [] x
+        | t :: rest =>
+          let r :=
+            match t with
+            | TStmt s => run_task fuel' (TkExec1 s []) x
+            | TDef v n => bind_s (do_step x (EDefineGlobal (var_name v) (VNum n))) (fun x1 _ => RNormal [] x1)
+            | TFn f _ =>
+              (* closure_impl: the closure remembers Vm.active_module *)
+              bind_s (do_step x (EDefineGlobal (fn_name f) (VFn (active (ms x)) (fn_key src f)))) (fun x1 _ => RNormal [] x1)
+            end in
+          match r with
+          | RNormal _ x' => run_task fuel' (TkTops rest src) x'
+          | r' => r'
+          end
         end
       end
     end.
+
+  Definition exec (fuel : nat) (ss : list stmt) (env : lenv) (x : xst) : res := run_task fuel (TkExec ss env) x.
+  Definition exec_tops (fuel : nat) (ts : list top) (src : nat) (x : xst) : res := run_task fuel (TkTops ts src) x.
 
   Definition main_attrs (core_names : list name) : list (name * value) :=
     builtin_attrs (builtin_names ++ core_names).
@@ -422,7 +423,8 @@ Fixpoint slookup_local (env : senv) (x : name) : option svalue :=
   | sc :: r => match alookup sc x with Some v => Some v | None => slookup_local r x end
   end.
 
-Record sx := mksx { ss : sstate; sout : list string }.
+Record sx := mksx { ss : sstate; sout : list string; sfl : string }.
+(* sfl: "r" = a module whose body had failed was imported again (known class failed_import_poisons_module) *)
 
 Inductive sresult :=
 | QNormal (env : senv) (x : sx)
@@ -446,7 +448,7 @@ Section SpecEval.
 
   Definition s_import := spec_import nat (list top) (prog_loader prog) (prog_compiler prog []) startup_names.
 
-  Definition semit (x : sx) (l : string) : sx := mksx (ss x) (l :: sout x).
+  Definition semit (x : sx) (l : string) : sx := mksx (ss x) (l :: sout x) (sfl x).
   Definition raise_s (x : sx) (k : errkind) (m : string) : sresult := QRaised (SXErr (mkerr k [m])) x.
 
   Definition sget (cur : path) (x : sx) (nm : name) (k : svalue -> sresult) : sresult :=
@@ -463,7 +465,7 @@ Section SpecEval.
 
   Definition sbind (cur : path) (env : senv) (x : sx) (nm : name) (v : svalue) : sresult :=
     match env with
-    | [] => QNormal [] (mksx (set_sglobal (ss x) cur nm v) (sout x))
+    | [] => QNormal [] (mksx (set_sglobal (ss x) cur nm v) (sout x) (sfl x))
     | sc :: r => QNormal (((nm, v) :: sc) :: r) x
     end.
 
@@ -488,20 +490,21 @@ Section SpecEval.
       | SPrintTag t => QNormal env (semit x (tag_text t))
       | SPrintVar v => sget cur x (var_name v) (fun w => QNormal env (semit x (display_s w)))
       | SSet v n =>
-        sget cur x (var_name v) (fun _ => QNormal env (mksx (set_sglobal (ss x) cur (var_name v) (SNum n)) (sout x)))
+        sget cur x (var_name v) (fun _ => QNormal env (mksx (set_sglobal (ss x) cur (var_name v) (SNum n)) (sout x) (sfl x)))
       | SImport p a =>
         let nm := import_alias p a in
         let pth := mod_path (N.to_nat p) in
         let '(st1, d) := s_import (ss x) pth in
-        let x1 := mksx st1 (sout x) in
+        let x1 := mksx st1 (sout x) (sfl x) in
         match d with
         | DSame => sbind cur env x1 nm (SMod pth)
         | DRaise e => QRaised (SXErr e) x1
+        | DFailedBefore => QRaised (SXErr (mkerr KImport [any_msg])) (mksx st1 (sout x) (sfl x ++ "r"))
         | DRun body =>
           match sexec_tops fuel' pth body (N.to_nat p) x1 with
           | QNormal _ x2 =>
-            sbind cur env (mksx (spec_finish (ss x2) pth true) (sout x2)) nm (SMod pth)
-          | QRaised e x2 => QRaised e (mksx (spec_finish (ss x2) pth false) (sout x2))
+            sbind cur env (mksx (spec_finish (ss x2) pth true) (sout x2) (sfl x2)) nm (SMod pth)
+          | QRaised e x2 => QRaised e (mksx (spec_finish (ss x2) pth false) (sout x2) (sfl x2))
           | r => r
           end
         end
@@ -518,7 +521,7 @@ Section SpecEval.
       | SSetAttr a v n =>
         sresolve cur env x (alias_name a) (fun w =>
           match w with
-          | SMod p => QNormal env (mksx (set_sglobal (ss x) p (var_name v) (SNum n)) (sout x))
+          | SMod p => QNormal env (mksx (set_sglobal (ss x) p (var_name v) (SNum n)) (sout x) (sfl x))
           | _ => QIll "not a module"
           end)
       | SCall f => sget cur x (fn_name f) (fun w => scall fuel' env x w)
@@ -584,8 +587,8 @@ Section SpecEval.
         let r :=
           match t with
           | TStmt s => sexec1 fuel' cur s [] x
-          | TDef v n => QNormal [] (mksx (set_sglobal (ss x) cur (var_name v) (SNum n)) (sout x))
-          | TFn f _ => QNormal [] (mksx (set_sglobal (ss x) cur (fn_name f) (SFn cur (fn_key src f))) (sout x))
+          | TDef v n => QNormal [] (mksx (set_sglobal (ss x) cur (var_name v) (SNum n)) (sout x) (sfl x))
+          | TFn f _ => QNormal [] (mksx (set_sglobal (ss x) cur (fn_name f) (SFn cur (fn_key src f))) (sout x) (sfl x))
           end in
         match r with
         | QNormal _ x' => sexec_tops fuel' cur rest src x'
@@ -595,12 +598,12 @@ Section SpecEval.
     end.
 
   Definition show_spec (x : sx) (result : string) : string :=
-    show_sep "$" (fun s => s) (rev (sout x)) ++ "#" ++ show_sep "," (fun s => s) (rev (s_loads (ss x))) ++ "#" ++ result.
+    show_sep "$" (fun s => s) (rev (sout x)) ++ "#" ++ show_sep "," (fun s => s) (rev (s_loads (ss x))) ++ "#" ++ result ++ "#" ++ sfl x.
 
   Definition eval_spec (fuel : nat) : string :=
     match prog with
     | MOk ts :: _ =>
-      match sexec_tops fuel main_path ts 0 (mksx (spec_init startup_names) []) with
+      match sexec_tops fuel main_path ts 0 (mksx (spec_init startup_names) [] "") with
       | QNormal _ x => show_spec x "ok"
       | QRaised (SXErr er) x =>
         show_spec x ("dead " ++ kind_after_roundtrip (e_kind er) ++ "$Unhandled " ++ kind_class (e_kind er) ++ ": " ++ first_line (e_msgs er))
